@@ -28,12 +28,44 @@ NOT_APPLICABLE = [
     {"property_id": "C16", "reason": "TLV8 container codec over byte strings; a " + PURE},
     {"property_id": "C17", "reason": "struct TLV8 codec over values and byte strings; a " + PURE},
 ]
-_PENDING = ["C01", "C02", "C03", "C05", "C06", "C07", "C08", "C09", "C10", "C11", "C12", "C13", "C18", "C19", "C20"]
-for _p in _PENDING:
-    if _p not in PROPS:
-        NOT_APPLICABLE.append({"property_id": _p, "reason": "applicable, but its check is not built yet in this revision (planned in DESIGN.md section 7); not claimed until it exists"})
+_ALL = ["C%02d" % i for i in range(1, 21)]
+
+
+def not_applicable():
+    out = list(NOT_APPLICABLE)
+    done = {e["property_id"] for e in out}
+    for p in _ALL:
+        if p not in PROPS and p not in done:
+            out.append({"property_id": p, "reason": "applicable, but its check is not built yet in this revision (planned in DESIGN.md section 7); not claimed until it exists"})
+    return out
 
 PROPS["C04"].update({
     "level_text": "Seeded exploration: an independent reference controller (own TLV8, SRP-6a, HKDF, ChaCha20-Poly1305, Ed25519/X25519 glue, own framing and HTTP reader) pairs, verifies and exchanges encrypted requests with the real transport over the simulated network, for generated codes, identities, storage contents, request sizes, TCP segmentations and goroutine schedules (incl. the cryptographer hand-over); every proof, signature and frame is checked by the reference. Sampling, not proof.",
     "level_note": "Trusted: x/crypto and std crypto primitives, math/big, encoding/json, net/http (Go 1.26.8). Interleavings at park-point granularity. SRP leading-zero padding ambiguity not judged.",
 })
+
+CODEC_REAL = ["hc crypto.secureSession (Encrypt/Decrypt), crypto/packet.go, crypto/chacha20poly1305, crypto/hkdf built from /repo's working tree"]
+CODEC_STUB = ["the io.Reader handed to Encrypt/Decrypt (simulated source deciding the size of every read and when EOF is signalled)",
+              "peer: reference framing written from the HAP specification (verif/sim/ref: HKDF labels, nonce layout, AAD, frame size typed in independently)"]
+
+PROPS["C06"] = {
+    "test": "TestC06", "level": "exploration",
+    "budget": {"quick": 15, "thorough": 300},
+    "rule": "fixed sweep: every payload length 0..4097 x 5 source chunking modes (whole, one byte per read, halves, seeded sizes, data together with io.EOF) x both directions, each followed by a second message (counter continuity); plus rapid-generated sessions of 1..6 messages with lengths up to 40000; non-trivial = every message compared byte-for-byte with the reference framing or decrypted from reference frames; distinct = distinct (length, source modes, direction) sequences",
+    "real": CODEC_REAL, "stub": CODEC_STUB,
+    "assumptions": ["x/crypto chacha20poly1305 and hkdf are trusted and shared by both sides",
+                    "an empty payload may produce no frame at all or one empty frame"],
+    "level_text": "Seeded exploration plus an exhaustive sweep of lengths 0..4097 per source mode: hc's Encrypt output is compared byte-for-byte with an independent framing (2-byte LE length as AAD, 64-bit LE counter nonce from 0, 1024-byte frames, Control-Salt keys) and hc's Decrypt is fed reference frames through a simulated reader that decides how each Read is cut. The only nondeterminism in this property is the behaviour of the source reader; that is the simulated seam.",
+    "level_note": "Trusted: x/crypto primitives. No goroutines, clock or network are involved in this property; the simulated component is the io.Reader.",
+    "technique": "deterministic simulation of the source reader (seeded chunking, short reads, EOF-with-data) with an independent reference framing as oracle; exhaustive length sweep + seeded search with shrinking",
+}
+PROPS["C05"] = {
+    "test": "TestC05", "level": "exploration",
+    "budget": {"quick": 15, "thorough": 300},
+    "rule": "codec layer: reference-framed stream of 1..4 messages (0..2600 bytes) with 0..3 seeded alterations from {bit flip anywhere / in a length / in a tag, truncation, frame drop, duplicate, swap, replay, reflection of the accessory's own frames, frame from another session, header/body splice, junk insertion}, fed to hc Decrypt through a simulated chunking reader; exhaustive single-bit-flip sub-space for streams of one or two frames of <=64 bytes and one 1029-byte message. system layer (C05 part ii) is exercised by the on-path adversary of the C01/C08 worlds. non-trivial = the stream was actually altered; distinct = distinct (lengths, alterations, chunk mode, intact prefix)",
+    "real": CODEC_REAL, "stub": CODEC_STUB,
+    "assumptions": ["x/crypto chacha20poly1305 is trusted", "after the first reported error the session is considered dead (hap.Connection closes the socket); plaintext released by further Decrypt calls on the same session is not judged at codec level"],
+    "level_text": "Seeded fault injection on the ciphertext stream between an independent sender and hc's Decrypt: whatever is released must be a whole-frame prefix of what was sent, ending no later than the first altered frame, and the call consuming the first altered frame must return an error. The single-bit-flip space is enumerated completely for small streams; everything else is sampled.",
+    "level_note": "Trusted: x/crypto primitives. Sampling outside the enumerated bit-flip sub-space.",
+    "technique": "deterministic simulation with fault injection on the byte stream (on-path adversary model), reference sender as oracle, seeded search with shrinking + exhaustive bit-flip sub-space",
+}
